@@ -152,11 +152,13 @@ template <> struct PayloadIO<int> {
 	static int make(int id) { return id; }
 	static int id(const int& p) { return p; }
 };
-struct Pod24 { int id; char pad[13]; int id2; char tail[3]; };
+// Pod24: constant head, the id only in the tail (a copy or comparison that stops early keeps a stale id)
+struct Pod24 { int tag; char pad[9]; int id; int id2; char tail[3]; };
 template <> struct PayloadIO<Pod24> {
-	static Pod24 make(int id) { Pod24 p; memset(&p, 0x5a, sizeof p); p.id = id; p.id2 = ~id; return p; }
-	static int id(const Pod24& p) { return (p.id2 == ~p.id && p.pad[0] == 0x5a && p.tail[2] == 0x5a) ? p.id : -777; }
+	static Pod24 make(int id) { Pod24 p; memset(&p, 0x5a, sizeof p); p.tag = 0x600df00d; p.id = id; p.id2 = ~id; return p; }
+	static int id(const Pod24& p) { return (p.tag == 0x600df00d && p.id2 == ~p.id && p.pad[0] == 0x5a && p.tail[2] == 0x5a) ? p.id : -777; }
 };
+// Big64: over-aligned, the id at both ends (a partial copy makes them disagree)
 struct alignas(32) Big64 { int id; char fill[56]; int id2; };
 template <> struct PayloadIO<Big64> {
 	static Big64 make(int id) { Big64 p; memset(&p, 0xa5, sizeof p); p.id = id; p.id2 = id ^ 0x55aa55aa; return p; }
